@@ -1017,7 +1017,7 @@ rrul_fill_yly(echs_instant_t *restrict tgt, size_t nti, rrulsp_t rr)
 	with (int tmpd) {
 		nd = 0UL;
 		for (bitint_iter_t di = 0U;
-		     nd < nti && (tmpd = bi31_next(&di, rr->dom), di);
+		     nd < countof(d) && (tmpd = bi31_next(&di, rr->dom), di);
 		     d[nd++] = tmpd);
 
 		/* fill up with the default */
@@ -1182,7 +1182,7 @@ rrul_fill_mly(echs_instant_t *restrict tgt, size_t nti, rrulsp_t rr)
 	with (int tmpd) {
 		nd = 0UL;
 		for (bitint_iter_t di = 0U;
-		     nd < nti && (tmpd = bi31_next(&di, rr->dom), di);
+		     nd < countof(d) && (tmpd = bi31_next(&di, rr->dom), di);
 		     d[nd++] = tmpd);
 
 		/* fill up with the default */
